@@ -243,6 +243,6 @@ pub static C08: CheckDef = CheckDef {
     run: run_all,
     stack_mb: 32,
     item_timeout_s: 300,
-    wall_cap_s: (55, 1700),
+    wall_cap_s: (55, 3600),
     shards: 0,
 };
